@@ -90,6 +90,9 @@ struct Tickit {
 
   void *sigchldwatch;
 
+  /* the signal watch tickit_evloop_invoke_sigwatches() will look at next */
+  TickitWatch *next_sigwatch;
+
   unsigned int done_setup    : 1,
                use_altscreen : 1;
 };
@@ -212,6 +215,7 @@ Tickit *tickit_build(const struct TickitBuilder *builder)
   sigemptyset(&t->signal.pending);
 
   t->sigchldwatch = NULL;
+  t->next_sigwatch = NULL;
 
   t->done_setup = false;
 
@@ -716,6 +720,8 @@ static bool cancel_watch_in(Tickit *t, TickitWatch **thisp, TickitWatch *watch)
     TickitWatch *this = *thisp;
     if(this == watch) {
       *thisp = this->next;
+      if(t->next_sigwatch == this)
+        t->next_sigwatch = this->next;
 
       if(this->flags & TICKIT_BIND_UNBIND)
         (*this->fn)(t, TICKIT_EV_UNBIND, NULL, this->user);
@@ -906,8 +912,12 @@ void tickit_evloop_invoke_processwatch(TickitWatch *watch, TickitEventFlags flag
 
 void tickit_evloop_invoke_sigwatches(Tickit *t, int signum)
 {
+  /* A callback may cancel any signal watch, its own included; the cursor is
+   * kept in t so that tickit_watch_cancel() can move it off a watch it frees */
   TickitWatch *this;
-  for(this = t->signals; this; this = this->next) {
+  for(this = t->signals; this; this = t->next_sigwatch) {
+    t->next_sigwatch = this->next;
+
     if(this->signal.signum == signum)
       (*this->fn)(this->t, TICKIT_EV_FIRE, NULL, this->user);
   }
